@@ -1,4 +1,5 @@
 (* Corr/CorrMulti.v — obligations on observations of concurrent associations over loopback (C20). *)
+From Coq Require Import Sorting.Mergesort Orders.
 From PND Require Import Lib.Base Lib.Text.
 
 Fixpoint beq_lb (a b : list bytes) : bool :=
@@ -8,8 +9,23 @@ Fixpoint beq_lb (a b : list bytes) : bool :=
   | _, _ => false
   end.
 
-Fixpoint nodup_n (l : list N) : bool :=
-  match l with [] => true | x :: r => negb (existsb (N.eqb x) r) && nodup_n r end.
+(* no value twice: sort (stdlib merge sort), then no two neighbours equal - n log n, for runs of 70000 ids *)
+Module NLe <: Orders.TotalLeBool.
+  Definition t := N.
+  Definition leb := N.leb.
+  Theorem leb_total : forall a b, leb a b = true \/ leb b a = true.
+  Proof.
+    intros a b. unfold leb. destruct (N.leb_spec a b); [left; reflexivity|right].
+    apply N.leb_le. apply N.lt_le_incl. assumption.
+  Qed.
+End NLe.
+Module NSort := Mergesort.Sort NLe.
+Fixpoint adjacent_distinct (l : list N) : bool :=
+  match l with
+  | x :: ((y :: _) as r) => negb (x =? y) && adjacent_distinct r
+  | _ => true
+  end.
+Definition nodup_n (l : list N) : bool := adjacent_distinct (NSort.sort l).
 
 Inductive c20case :=
 | LoopClient (expected got server_expected server_stored : list bytes) (error : bool)
